@@ -161,8 +161,14 @@ func (r *recorder) BeforeExecuteOpcode(s *interpreter.State) {
 }
 func (r *recorder) AfterExecuteOpcode(s *interpreter.State) { r.trace = append(r.trace, 'o'); r.see(s) }
 func (r *recorder) BeforeScriptChange(s *interpreter.State) { r.trace = append(r.trace, 'C'); r.see(s) }
-func (r *recorder) AfterScriptChange(s *interpreter.State)  { r.trace = append(r.trace, 'c'); r.see(s) }
-func (r *recorder) AfterSuccess(s *interpreter.State)       { r.trace = append(r.trace, 'Y'); r.see(s) }
+func (r *recorder) AfterScriptChange(s *interpreter.State) {
+	r.trace = append(r.trace, 'c')
+	if s != nil && len(s.AltStack) != 0 && r.badState == "" {
+		r.badState = fmt.Sprintf("%d alt-stack item(s) in the snapshot handed to AfterScriptChange (the alt stack does not survive a script boundary)", len(s.AltStack))
+	}
+	r.see(s)
+}
+func (r *recorder) AfterSuccess(s *interpreter.State) { r.trace = append(r.trace, 'Y'); r.see(s) }
 func (r *recorder) AfterError(s *interpreter.State, e error) {
 	r.trace = append(r.trace, 'N')
 	r.see(s)
